@@ -130,7 +130,9 @@ def judge(ctx, pid, rejected, cross=()):
 ITEMS = [("text", "hi"), ("binary", b"\x00\x01"), ("frag", 1, ["a", "é"]), ("frag", 2, [b"\x01", b"", b"\x02"]), ("ping", b"pi"),
          ("pong", b"po"), ("burst", [("text", "b1"), ("binary", b"b2"), ("ping", b"")]), ("text", ""),
          # text fragments that end inside a character (2-, 3- and 4-byte characters cut at every byte)
-         ("frag", 1, [b"\xf0\x9f\x98", b"\x80"]), ("frag", 1, [b"a\xf0", b"\x9f", b"\x98\x80\xe2\x82", b"\xacz"])]
+         ("frag", 1, [b"\xf0\x9f\x98", b"\x80"]), ("frag", 1, [b"a\xf0", b"\x9f", b"\x98\x80\xe2\x82", b"\xacz"]),
+         # the first length of the 16-bit form, as a whole frame and as a fragment
+         ("binary", bytes(range(126))), ("frag", 1, ["y" * 126, "z"])]
 
 
 def fam_delivery(rng, tier):
@@ -159,7 +161,7 @@ def fam_delivery(rng, tier):
             # server are then unsolicited and carry other payloads than ours) and some with debug tracing switched on
             run = {"ping_interval": 30, "ping_payload": rng.choice(["hb", "po"])} if n % 5 == 0 else {}
             out.append({"tid": "dlv%d" % n, "conns": [{"events": events}], "run": run, "callbacks": cbs, "actions": actions,
-                        "send_after_run": n % 4 == 0, "trace": n % 7 == 0,
+                        "send_after_run": n % 4 == 0, "trace": n % 7 == 0, "cb_style": [None, "partial", "object"][n % 3],
                         "tls": bool(variant % 2) if tier == "thorough" else (n % 3 == 0), "horizon": 60000})
     return out
 
@@ -354,6 +356,7 @@ def fam_keepalive(rng, tier):
     grid = [(i, t) for t in (1, 2, 3, 4) for i in range(1, 10)] if tier == "thorough" else \
         [(i, t) for t in (1, 2, 3) for i in (1, 2, 3, 4, 5, 6, 7, 9)]
     grid += [(25, 10), (11, 10), (30, 7)]
+    grid += [(0.6, 0.25), (0.5, 0.2), (1.5, 0.5), (1, 0.4)]        # sub-second settings are pairs like any other
     for I, T in grid:
         ok = I > T
         pats = []
@@ -364,10 +367,11 @@ def fam_keepalive(rng, tier):
             for k in (1, 2, 3):
                 pats.append(("stop%d" % k, {"stop_after": k, "latency": min(500, T * 500)}, []))
             pats.append(("fast", 0, []))
-            pats.append(("edge", T * 1000, []))
+            # (exactly T: representable only for whole seconds - 4.4 - 4.0 > 0.4 in floating point)
+            pats.append(("edge", T * 1000 if T == int(T) else T * 1000 - 1, []))
             pats.append(("half", T * 500, []))
             pats.append(("late", T * 1000 + 500, []))
-            pats.append(("mixed", [T * 500, T * 1000, 0, T * 1000 + 1, T * 200], []))
+            pats.append(("mixed", [T * 500, T * 1000 if T == int(T) else T * 1000 - 1, 0, T * 1000 + 1, T * 200], []))
         for pname, pong, _ in pats:
             for traffic in (False, True):
                 if traffic and (not ok or (tier == "quick" and rng.random() < 0.5)):
@@ -502,6 +506,11 @@ FAMILIES = {"C13": [("delivery", fam_delivery)], "C14": [("endings", fam_endings
                     ("ping_thread_preempts_check", fam_keepalive_line_preempt)]}
 
 
+# clauses of another property that count for the check of property X in X's own families (the loss of a silent peer
+# has to be noticed before it can be followed by a new attempt)
+APP_CROSS = {"C15": {"C16.silent_peer_not_reported_within_two_timeouts"}}
+
+
 def fam_common(rng, tier):
     out = []
     for fn in (fam_delivery, fam_endings, fam_reconnect, fam_keepalive):
@@ -535,7 +544,7 @@ def run_for(ctx, pid):
     from . import app_mc
     app_mc.model_check(ctx, pid)
     for tag, fn in FAMILIES[pid] + [("common_pool", fam_common)]:
-        judge(ctx, pid, validate(ctx, pid, [jsonable(sc) for sc in fn(rng, ctx.tier)], tag))
+        judge(ctx, pid, validate(ctx, pid, [jsonable(sc) for sc in fn(rng, ctx.tier)], tag), cross=APP_CROSS.get(pid, ()))
     negative_controls(ctx, pid)
     ctx.trusted += ["TLC 1.8", "deterministic scheduler and virtual time vf/schedworld.py", "scripted servers vf/appworld.py"]
     ctx.assumptions += ["time is virtual: processing takes no time, so 'prompt' means the same millisecond"]
